@@ -32,6 +32,7 @@ class FnSpec:
     loops: dict[int, LoopSpec] = field(default_factory=dict)
     ghost_return: dict[str, str] = field(default_factory=dict)  # ghost var := expr, evaluated at every return
     ghost_after: list[tuple[str, str, str]] = field(default_factory=list)  # (stmt source pattern, ghost var, expr)
+    ghost_before: list[tuple[str, str, str]] = field(default_factory=list)  # same, executed before the statement
     variants: list[dict[str, str]] = field(default_factory=list)  # type overrides, one proof per variant
     captures: dict[str, str] = field(default_factory=dict)  # closures: enclosing locals visible, with types
     generics: tuple[str, ...] = ()
@@ -131,9 +132,11 @@ class Registry:
         self.records[name] = fields
         self.record_defaults[name] = defaults or {}
 
-    def recfn(self, name, params, ret, on, base, step, group=""):
-        """recursive spec function over the integer parameter `on`: f = base if on <= 0 else step (step may call f at on-1)"""
-        self.recfns[name] = dict(params=params, ret=ret, on=on, base=base, step=step, group=group)
+    def recfn(self, name, params, ret, on, base, step, group="", base_when=None):
+        """recursive spec function over the integer parameter `on`: f = base if <base_when, default on <= 0> else step
+        (step may call f at on-1)"""
+        self.recfns[name] = dict(params=params, ret=ret, on=on, base=base, step=step, group=group,
+                                 base_when=base_when or f"{on} <= 0")
 
     def lemma(self, name, vars, body, **kw):
         self.lemmas[name] = Lemma(name, vars, body, **kw)
